@@ -255,6 +255,69 @@ theorem C06_service_signed {S : Type} (recover : ServiceData → S → Option Ad
               exact ⟨hks, by rw [hc.2 k hk, hget k hks]⟩
             · cases hacc
 
+theorem strictInc_head_lt : ∀ (a : Nat) (l : List Nat), StrictInc (a :: l) → ∀ x ∈ l, a < x
+  | _, [], _, x, hx => by cases hx
+  | a, b :: rest, h, x, hx => by
+    obtain ⟨hab, hr⟩ := h
+    rcases List.mem_cons.1 hx with e | e
+    · subst e; exact hab
+    · exact Nat.lt_trans hab (strictInc_head_lt b rest hr x e)
+
+theorem strictInc_tail : ∀ (a : Nat) (l : List Nat), StrictInc (a :: l) → StrictInc l
+  | _, [], _ => trivial
+  | _, _ :: _, h => h.2
+
+theorem strictInc_nodup : ∀ (l : List Nat), StrictInc l → l.Nodup
+  | [], _ => List.nodup_nil
+  | a :: l, h => by
+    refine List.nodup_cons.2 ⟨?_, strictInc_nodup l (strictInc_tail a l h)⟩
+    intro hm
+    exact Nat.lt_irrefl a (strictInc_head_lt a l h a hm)
+
+theorem strictInc_length_le (n : Nat) : ∀ (l : List Nat) (lo : Nat), StrictInc l →
+    (∀ x ∈ l, lo ≤ x ∧ x < n) → l.length ≤ n - lo
+  | [], _, _, _ => Nat.zero_le _
+  | a :: l, lo, h, hb => by
+    have ha := hb a (by simp)
+    have ih := strictInc_length_le n l (a + 1) (strictInc_tail a l h) (fun x hx =>
+      ⟨strictInc_head_lt a l h x hx, (hb x (List.mem_cons_of_mem _ hx)).2⟩)
+    simp only [List.length_cons]
+    omega
+
+/-- **A genuine threshold means `threshold` different keypers' positions.**  In an accepted Gnosis message no
+    position of the keyper set is named twice: the `threshold` signatures are over `threshold` distinct positions
+    (one keyper listed at two positions of the set can sign for both — the set's own business). -/
+theorem C06_distinct_signers {S : Type} (recover : SlotData → S → Option Addr) (ks : KeyperSet) (d : SlotData)
+    (signers : List Nat) (sigs : List S) (hacc : validateGnosis recover ks d signers sigs = .accept) :
+    signers.Nodup ∧ signers.length = ks.threshold ∧ ks.threshold ≤ ks.keypers.length := by
+  rw [C06_gnosis_iff] at hacc
+  obtain ⟨hl, _, hinc, hin, _⟩ := hacc
+  have hnd := strictInc_nodup signers hinc
+  refine ⟨hnd, hl, ?_⟩
+  rw [← hl]
+  have := strictInc_length_le ks.keypers.length signers 0 hinc (fun x hx => ⟨Nat.zero_le _, hin x hx⟩)
+  omega
+
+/-- **Tampering invalidates, shutter-service flavour**: signatures accepted over one (instance, eon, identities)
+    are rejected over any other, when anything was signed at all. -/
+theorem C06_service_tamper {S : Type} (recover : ServiceData → S → Option Addr) (hb : Binding recover)
+    (ks : KeyperSet) (d d' : ServiceData) (signers : List Nat) (sigs : List S)
+    (hne0 : ¬ (signers.length = 0 ∧ sigs.length = 0))
+    (hacc : validateService recover ks d signers sigs = .accept) (hne : d ≠ d') (hpos : 0 < ks.threshold) :
+    validateService recover ks d' signers sigs = .reject := by
+  obtain ⟨hl, hs, _, hin, hall⟩ := C06_service_signed recover ks d signers sigs hne0 hacc
+  cases hv : validateService recover ks d' signers sigs with
+  | reject => rfl
+  | accept =>
+    exfalso
+    obtain ⟨_, _, _, _, hall'⟩ := C06_service_signed recover ks d' signers sigs hne0 hv
+    have hk : 0 < sigs.length := by omega
+    obtain ⟨hks, hr⟩ := hall 0 hk
+    obtain ⟨_, hr'⟩ := hall' 0 hk
+    have hlt := hin signers[0] (List.getElem_mem hks)
+    rw [List.getElem?_eq_getElem hlt] at hr hr'
+    exact hb d d' _ _ hr hne hr'
+
 /-! non-vacuity: a 2-of-3 message accepted, and the zero-signature message of the original defect rejected -/
 def exRecover (d : SlotData) (s : Nat × SlotData) : Option Addr := if s.2 = d then some s.1 else some 0
 def exData : SlotData := { instanceId := 1, eon := 2, slot := 3, txPointer := 4, identities := [] }
